@@ -648,6 +648,25 @@ class Engine:
         n_acts_before = sim.tr.n
         sim.tr.hook = self.bind_hook if self.overriding_active() else None
         self.fail_idx_now = []
+        self.mid_touched = set()
+        during = op.get("during")
+        if during:
+            # probes activated / deactivated from inside the running call, at its k-th interaction
+            # with the environment (in the instrumented twin; the model takes note of who changed)
+            fired = []
+
+            def in_mid_call(k, during=during):
+                if k == during["at"] and not fired:
+                    fired.append(k)
+                    self.sim.reach("probe_changed_in_mid_call")
+                    for sub in during["ops"]:
+                        if sub["op"] in ("enter", "exit"):
+                            self.mid_touched.add(sub["id"])
+                            self.step(sub)
+
+            sim.on_step = {"sys": in_mid_call}
+        else:
+            sim.on_step = {}
         sim.tr.after = self.after_event if (self.exact_mode() and self.pending_failures()) else None
         sim.tr.decl_attempt = self.decl_attempt if sim.tr.after is not None else None
         for k, vn in enumerate(order):
@@ -1162,6 +1181,11 @@ class Engine:
                         got = [g for g in got if not any(g.get(k) in uvals for k in fas)]
                 else:
                     uidx = set()
+                if pid in self.mid_touched:
+                    # activated / deactivated while this call was under way: what it is owed of this
+                    # very call is not stated (the call was entered under other conditions)
+                    rec.exp_all.extend((self.opi, d) for d in got)
+                    continue
                 if rec.active and not rec.spec.get("nojudge"):
                     if raised_now:
                         # an injected subscriber failure aborted the probed call:
